@@ -24,7 +24,11 @@ pub const INJECTED: &[&str] = &[
     "tauri::Window",
     "tauri::Window<R>",
     "WebviewWindow",
+    "WebviewWindow<R>",
     "tauri::WebviewWindow",
+    "tauri::WebviewWindow<R>",
+    "tauri::webview::WebviewWindow",
+    "tauri::AppHandle<R>",
     "tauri::ipc::Request<'_>",
 ];
 pub const CHANNELS: &[&str] = &["Channel<Progress>", "tauri::ipc::Channel<Progress>", "Channel<String>", "tauri::ipc::Channel<u32>", "Channel<Vec<u8>>"];
@@ -100,7 +104,7 @@ fn members_keys(members: &[Member]) -> BTreeMap<String, bool> {
 }
 
 /// keys (→ omittable?) of the type named `name` in types.ts
-fn keys_of_type(types: &tsx::Parsed, name: &str) -> Result<BTreeMap<String, bool>, String> {
+pub fn keys_of_type(types: &tsx::Parsed, name: &str) -> Result<BTreeMap<String, bool>, String> {
     if let Some(i) = types.interface(name) {
         let mut m = members_keys(&i.members);
         for e in &i.extends {
@@ -402,7 +406,7 @@ pub fn grid() -> Vec<CmdM> {
 }
 
 pub fn run(ctx: &Ctx) {
-    ctx.set_rule("parameter lists of 0-7 entries mixing value parameters (10 shallow types, Option or not), injected parameters in 13 spellings and channels in 5 spellings, names from the snake pool (digits, leading/doubled/trailing underscores, raw identifiers, JS reserved words) or random words; default_parameter_case in 8 rules (plain names only when not the default); each list generated in both modes; grid = every injected spelling x every pool name, every channel spelling x 4 injected spellings, every case rule; evaluation = one (list, mode) run; non-trivial = an injected and a value parameter together, or a name outside [a-z]+(_[a-z]+)*");
+    ctx.set_rule("parameter lists of 0-7 entries mixing value parameters (10 shallow types, Option or not), injected parameters in 17 spellings and channels in 5 spellings, names from the snake pool (digits, leading/doubled/trailing underscores, raw identifiers, JS reserved words) or random words; default_parameter_case in 8 rules (plain names only when not the default); each list generated in both modes; grid = every injected spelling x every pool name, every channel spelling x 4 injected spellings, every case rule; evaluation = one (list, mode) run; non-trivial = an injected and a value parameter together, or a name outside [a-z]+(_[a-z]+)*");
     ctx.set_exhaustive(false);
     ctx.assume("expected keys follow tauri-macros: ident.unraw() then heck (the crate Tauri uses); for non-default configured cases only plain names are generated");
     let g = grid();
